@@ -239,6 +239,9 @@ void unlockMutexFully(M* m, int* savedDepth) {
 }
 
 int condWait(pthread_cond_t* c, pthread_mutex_t* mu, const struct timespec* abs) {
+  // a preemption between the caller's test of its predicate and the wait: harmless when the predicate is only changed under the
+  // mutex (which the caller still holds here), a lost wake-up when it is not
+  yieldPoint();
   int me = tl_id; C* cc = findC(c); (void)cc; M* m = findM(mu);
   TRACE("cond_wait %p%s", (void*)c, abs ? " (timed)" : "");
   int depth = 1;
